@@ -35,23 +35,33 @@ import (
 
 type row struct {
 	ID      int    `json:"id"`
-	Kind    string `json:"kind"` // "row" | "race"
+	Kind    string `json:"kind"` // "row" | "race" (N starters at once) | "seq" (N starters one after the other)
 	Marker  string `json:"marker"`
 	Crash   bool   `json:"crash"`
 	Upload  bool   `json:"upload"`
 	Mode    string `json:"mode"`
 	Token   string `json:"token"`
 	LocalOK bool   `json:"localOK"`
-	// concretization choices
-	MarkerText string  `json:"markerText"` // value of GO_TELEMETRY_CHILD ("" with MarkerSet=false: not in the environment)
-	MarkerSet  bool    `json:"markerSet"`
-	ModeText   *string `json:"modeText"` // nil: no mode file
-	TokenAge   int     `json:"tokenAge"` // seconds
-	Unusable   string  `json:"unusable"` // "dangling" | "file"
-	LocalPre   bool    `json:"localPre"` // local directory exists beforehand even without a token
-	UseTDir    bool    `json:"useTDir"`  // pass the directory through Config.TelemetryDir instead of XDG_CONFIG_HOME
-	Hold       bool    `json:"hold"`     // keep the application / the stdin pipe alive until the go command was run
-	N          int     `json:"n"`        // race: number of concurrent starters
+	// concretization choices (shapes enumerated by SidecarConcrete.tla)
+	MarkerText string `json:"markerText"` // value of GO_TELEMETRY_CHILD (with MarkerSet=false: not in the environment)
+	MarkerSet  bool   `json:"markerSet"`
+	ModeKind   string `json:"modeKind"`  // "text" | "missing" | "directory" | "noconfigdir"
+	ModeText   string `json:"modeText"`  // contents of the mode file
+	TokenKind  string `json:"tokenKind"` // "none" | "empty" | "content" | "dir" | "dangling" | "loop"
+	TokenAge   int    `json:"tokenAge"`  // seconds (negative: modification time in the future)
+	LocalKind  string `json:"localKind"` // "exists" | "absent" | "notelemetrydir" | "dangling" | "file"
+	CfgVia     string `json:"cfgVia"`    // "xdg" | "home" | "tdir" (Config.TelemetryDir)
+	Fancy      bool   `json:"fancy"`     // spaces and non-ASCII characters in the directory names
+	Debug      string `json:"dbg"`       // <telemetry dir>/debug: "absent" | "dir" | "file"
+	UpvarText  string `json:"upvarText"` // value of GO_TELEMETRY_CHILD_UPLOAD ("unset": not in the environment)
+	CfgUpload  bool   `json:"cfgUpload"` // Config.Upload handed to Start (a sidecar ignores it)
+	Leak       bool   `json:"leak"`
+	Entry      string `json:"entry"` // "start" | "maybe" (MaybeChild, then Start)
+	Calls      int    `json:"calls"` // Start is called this many times in the one process
+	AppCrash   bool   `json:"appCrash"`
+	Hold       bool   `json:"hold"`  // keep the application / the stdin pipe alive until the go command was run
+	HoldN      int    `json:"holdN"` // ... this many times
+	N          int    `json:"n"`     // race / seq: number of starters
 }
 
 type logEntry struct {
@@ -170,11 +180,20 @@ type snapEntry struct {
 	Sum  string
 }
 
-func snapshot(roots ...string) map[string]snapEntry {
+func snapshot(skip map[string]bool, roots ...string) map[string]snapEntry {
 	out := map[string]snapEntry{}
 	for _, root := range roots {
 		filepath.WalkDir(root, func(p string, d fs.DirEntry, err error) error {
 			if err != nil {
+				return nil
+			}
+			if skip[p] {
+				if d != nil && d.IsDir() {
+					return filepath.SkipDir
+				}
+				return nil
+			}
+			if p == root {
 				return nil
 			}
 			fi, err := os.Lstat(p)
@@ -202,6 +221,9 @@ func tokenState(p string, now time.Time) string {
 	fi, err := os.Lstat(p)
 	if err != nil {
 		return "absent"
+	}
+	if fi.Mode()&os.ModeSymlink != 0 {
+		return "ghost"
 	}
 	if now.Sub(fi.ModTime()) < 24*time.Hour {
 		return "fresh"
@@ -314,8 +336,14 @@ func runRow(t *testing.T, r *row) {
 	dir := filepath.Join(work, fmt.Sprintf("r%d", r.ID))
 	os.RemoveAll(dir)
 	defer os.RemoveAll(dir)
-	home, xdg, tmp, bin := filepath.Join(dir, "home"), filepath.Join(dir, "xdg"), filepath.Join(dir, "tmp"), filepath.Join(dir, "bin")
-	for _, d := range []string{home, xdg, tmp, bin} {
+	nm := func(s string) string {
+		if r.Fancy {
+			return s + " \u00fc\u4e16 x"
+		}
+		return s
+	}
+	home, xdg, tmp, bin := filepath.Join(dir, nm("home")), filepath.Join(dir, nm("xdg")), filepath.Join(dir, "tmp"), filepath.Join(dir, "bin")
+	for _, d := range []string{home, tmp, bin} {
 		os.MkdirAll(d, 0777)
 	}
 	prog := os.Getenv("VERIF_C16_PROG")
@@ -325,34 +353,62 @@ func runRow(t *testing.T, r *row) {
 		os.WriteFile(fakego, b, 0777)
 	}
 	logPath := filepath.Join(dir, "start.log")
-	tdir := filepath.Join(xdg, "go", "telemetry")
-	if r.UseTDir {
-		tdir = filepath.Join(dir, "alt", "telemetry")
+	var tdir string
+	switch r.CfgVia {
+	case "home":
+		tdir = filepath.Join(home, ".config", "go", "telemetry")
+	case "tdir":
+		tdir = filepath.Join(dir, nm("alt"), "telemetry")
+	default:
+		tdir = filepath.Join(xdg, "go", "telemetry")
 	}
-	os.MkdirAll(tdir, 0777)
-	if r.ModeText != nil {
-		os.WriteFile(filepath.Join(tdir, "mode"), []byte(*r.ModeText), 0666)
-	}
+	noCfg := r.ModeKind == "noconfigdir"
 	local := filepath.Join(tdir, "local")
 	tokenPath := filepath.Join(local, "upload.token")
 	now := time.Now()
-	switch {
-	case !r.LocalOK && r.Unusable == "file":
-		os.WriteFile(local, []byte("not a directory\n"), 0666)
-	case !r.LocalOK:
-		os.Symlink(filepath.Join(dir, "nowhere", "local"), local)
-	default:
-		if r.Token != "absent" || r.LocalPre {
+	if !noCfg && r.LocalKind != "notelemetrydir" {
+		os.MkdirAll(tdir, 0777)
+		switch r.ModeKind {
+		case "text":
+			os.WriteFile(filepath.Join(tdir, "mode"), []byte(r.ModeText), 0666)
+		case "directory":
+			os.MkdirAll(filepath.Join(tdir, "mode"), 0777)
+		}
+		switch r.Debug {
+		case "dir":
+			os.MkdirAll(filepath.Join(tdir, "debug"), 0777)
+		case "file":
+			os.WriteFile(filepath.Join(tdir, "debug"), []byte("x\n"), 0666)
+		}
+		switch r.LocalKind {
+		case "file":
+			os.WriteFile(local, []byte("not a directory\n"), 0666)
+		case "dangling":
+			os.Symlink(filepath.Join(dir, "nowhere", "local"), local)
+		case "exists":
 			os.MkdirAll(local, 0777)
 		}
-		if r.Token != "absent" {
-			os.WriteFile(tokenPath, nil, 0666)
+		if r.LocalKind == "exists" {
 			mt := now.Add(-time.Duration(r.TokenAge) * time.Second)
-			os.Chtimes(tokenPath, mt, mt)
+			switch r.TokenKind {
+			case "empty":
+				os.WriteFile(tokenPath, nil, 0666)
+				os.Chtimes(tokenPath, mt, mt)
+			case "content":
+				os.WriteFile(tokenPath, []byte("held by somebody\n"), 0666)
+				os.Chtimes(tokenPath, mt, mt)
+			case "dir":
+				os.Mkdir(tokenPath, 0777)
+				os.Chtimes(tokenPath, mt, mt)
+			case "dangling":
+				os.Symlink(filepath.Join(dir, "nowhere", "token"), tokenPath)
+			case "loop":
+				os.Symlink("upload.token", tokenPath)
+			}
 		}
 	}
-	roots := []string{home, xdg, tmp, filepath.Join(dir, "alt")}
-	before := snapshot(roots...)
+	skip := map[string]bool{logPath: true, bin: true}
+	before := snapshot(skip, dir)
 	tokenBefore := tokenState(tokenPath, now)
 
 	b01 := func(b bool) string {
@@ -361,20 +417,32 @@ func runRow(t *testing.T, r *row) {
 		}
 		return "0"
 	}
-	env := []string{"HOME=" + home, "XDG_CONFIG_HOME=" + xdg, "TMPDIR=" + tmp, "PATH=" + bin,
-		"VERIF_C16_LOG=" + logPath, "VERIF_C16_CRASH=" + b01(r.Crash), "VERIF_C16_UPLOAD=" + b01(r.Upload),
-		"VERIF_C16_URL=http://127.0.0.1:1/upload"}
-	if r.UseTDir {
+	env := []string{"TMPDIR=" + tmp, "PATH=" + bin,
+		"VERIF_C16_LOG=" + logPath, "VERIF_C16_CRASH=" + b01(r.Crash), "VERIF_C16_UPLOAD=" + b01(r.CfgUpload),
+		"VERIF_C16_URL=http://127.0.0.1:1/upload", "VERIF_C16_ENTRY=" + r.Entry}
+	if r.Kind == "row" {
+		env = append(env, "VERIF_C16_CALLS="+strconv.Itoa(r.Calls))
+	}
+	if !noCfg {
+		env = append(env, "HOME="+home)
+		if r.CfgVia != "home" {
+			env = append(env, "XDG_CONFIG_HOME="+xdg)
+		}
+	}
+	if r.CfgVia == "tdir" && !noCfg {
 		env = append(env, "VERIF_C16_TDIR="+tdir)
 	}
 	if r.MarkerSet {
 		env = append(env, "GO_TELEMETRY_CHILD="+r.MarkerText)
 	}
-	if r.Marker == "1" && r.Upload {
-		env = append(env, "GO_TELEMETRY_CHILD_UPLOAD=1")
+	if r.UpvarText != "unset" {
+		env = append(env, "GO_TELEMETRY_CHILD_UPLOAD="+r.UpvarText)
 	}
 	if r.Hold && r.Marker != "1" {
-		env = append(env, "VERIF_C16_HOLD=1")
+		env = append(env, "VERIF_C16_HOLD="+strconv.Itoa(max(r.HoldN, 1)))
+	}
+	if r.AppCrash {
+		env = append(env, "VERIF_C16_PANIC=1")
 	}
 	devnull, _ := os.OpenFile(os.DevNull, os.O_RDWR, 0)
 	defer devnull.Close()
@@ -389,35 +457,9 @@ func runRow(t *testing.T, r *row) {
 		}
 	}
 	n := 1
-	if r.Kind == "race" {
+	if r.Kind == "race" || r.Kind == "seq" {
 		n = r.N
 	}
-	var started []int
-	for i := 0; i < n; i++ {
-		pid, err := syscall.ForkExec(prog, []string{prog, "row", strconv.Itoa(r.ID)}, &syscall.ProcAttr{
-			Dir: dir, Env: env, Files: []uintptr{stdin.Fd(), devnull.Fd(), devnull.Fd()}})
-		if err != nil {
-			t.Fatalf("row %d: starting prog: %v", r.ID, err)
-		}
-		started = append(started, pid)
-	}
-	if pipeW != nil {
-		stdin.Close()
-		go func() {
-			// "the application is alive" until the uploader half ran the go command
-			if r.Hold {
-				for i := 0; i < 1500; i++ {
-					data, _ := os.ReadFile(logPath)
-					if strings.Contains(string(data), " go ") {
-						break
-					}
-					time.Sleep(2 * time.Millisecond)
-				}
-			}
-			pipeW.Close()
-		}()
-	}
-	// the row is over when no descendant is left
 	timedOut := false
 	done := make(chan struct{})
 	go func() {
@@ -438,23 +480,55 @@ func runRow(t *testing.T, r *row) {
 		}
 	}()
 	exits := map[int]int{}
-	for {
-		var ws syscall.WaitStatus
-		pid, err := syscall.Wait4(-1, &ws, 0, nil)
-		if err == syscall.EINTR {
-			continue
-		}
-		if err != nil {
-			break // ECHILD: nobody left
-		}
-		if ws.Exited() {
-			exits[pid] = ws.ExitStatus()
-		} else {
-			exits[pid] = -1
+	waitAll := func() {
+		// the row is over when no descendant is left
+		for {
+			var ws syscall.WaitStatus
+			pid, err := syscall.Wait4(-1, &ws, 0, nil)
+			if err == syscall.EINTR {
+				continue
+			}
+			if err != nil {
+				break // ECHILD: nobody left
+			}
+			if ws.Exited() {
+				exits[pid] = ws.ExitStatus()
+			} else {
+				exits[pid] = -1
+			}
 		}
 	}
+	var started []int
+	for i := 0; i < n; i++ {
+		pid, err := syscall.ForkExec(prog, []string{prog, "row", strconv.Itoa(r.ID)}, &syscall.ProcAttr{
+			Dir: dir, Env: env, Files: []uintptr{stdin.Fd(), devnull.Fd(), devnull.Fd()}})
+		if err != nil {
+			t.Fatalf("row %d: starting prog: %v", r.ID, err)
+		}
+		started = append(started, pid)
+		if r.Kind == "seq" {
+			waitAll()
+		}
+	}
+	if pipeW != nil {
+		stdin.Close()
+		go func() {
+			// "the application is alive" until the uploader half ran the go command
+			if r.Hold {
+				for i := 0; i < 1500; i++ {
+					data, _ := os.ReadFile(logPath)
+					if strings.Contains(string(data), " go ") {
+						break
+					}
+					time.Sleep(2 * time.Millisecond)
+				}
+			}
+			pipeW.Close()
+		}()
+	}
+	waitAll()
 	close(done)
-	after := snapshot(roots...)
+	after := snapshot(skip, dir)
 	tokenAfter := tokenState(tokenPath, time.Now())
 
 	// ---- abstraction -----------------------------------------------------
@@ -484,11 +558,11 @@ func runRow(t *testing.T, r *row) {
 	changed := []string{}
 	classes := map[string]bool{}
 	classify := func(p string) string {
+		if p != dir && strings.HasPrefix(tdir+"/", p+"/") {
+			return "counters" // the telemetry directory or one of its parents (made on the way to local/)
+		}
 		rel, err := filepath.Rel(tdir, p)
 		if err != nil || strings.HasPrefix(rel, "..") {
-			if p == filepath.Dir(tdir) || p == filepath.Dir(filepath.Dir(tdir)) {
-				return "other:telemetry-parent"
-			}
 			return "other:outside"
 		}
 		switch {
@@ -502,8 +576,8 @@ func runRow(t *testing.T, r *row) {
 			return "uploaddir"
 		case strings.HasPrefix(rel, "upload/"):
 			return "other:upload"
-		case strings.HasPrefix(rel, "debug"):
-			return "other:debug"
+		case strings.HasPrefix(rel, "debug/"):
+			return "debuglog"
 		}
 		return "other:" + strings.SplitN(rel, "/", 2)[0]
 	}
@@ -526,7 +600,7 @@ func runRow(t *testing.T, r *row) {
 	}
 	sort.Strings(wrote)
 	tb, ta := before[tokenPath], after[tokenPath]
-	acquired := tokenAfter == "fresh" && (tokenBefore == "absent" || tb != ta)
+	acquired := tokenAfter == "fresh" && tb != ta
 	rootExit := -2
 	if len(started) == 1 {
 		if c, ok := exits[started[0]]; ok {
